@@ -144,8 +144,9 @@ The three conjuncts after that are the carve-outs of the confirmed / reported de
 no `"` (finding quote-in-name), no `\` (line protocol has no escape for it outside string values). -/
 def nameOK (s : Bytes) : Bool := !s.isEmpty && noNL s && !s.contains cDQ && !s.contains cBS
 
-/-- additionally for keys: no `=` (finding key-escaped-equals) -/
-def keyOK (s : Bytes) : Bool := nameOK s && !s.contains cEQ
+/-- additionally for keys: no `=` (finding key-escaped-equals) — unless the current source locates the
+key/value separator escape-aware (regenerated fact), in which case the carve-out is void -/
+def keyOK (s : Bytes) : Bool := nameOK s && (Arc.Generated.C01.kvCutEscapeAware || !s.contains cEQ)
 
 def reserved (s : Bytes) : Bool := s == timeCol
 
